@@ -25,6 +25,19 @@ static NAMED_LEVEL: AtomicU64 = AtomicU64::new(0);
 /// Counter of named points passed (whether or not they yielded) — evidence only.
 static NAMED_PASSED: AtomicU64 = AtomicU64::new(0);
 
+/// While set, the exploring scheduler takes its default choice at every decision and records no
+/// node: the harness's own oracle work (recoveries of crash images, final compaction) is executed
+/// under the runtime but is not part of the explored schedule space.
+static ORACLE_MODE: AtomicBool = AtomicBool::new(false);
+
+pub fn set_oracle_mode(on: bool) {
+    ORACLE_MODE.store(on, Ordering::SeqCst);
+}
+
+pub fn oracle_mode() -> bool {
+    ORACLE_MODE.load(Ordering::SeqCst)
+}
+
 pub fn set_switch_after_unlock(on: bool) {
     SWITCH_AFTER_UNLOCK.store(on, Ordering::SeqCst);
 }
